@@ -1478,7 +1478,15 @@ fn gen_ber(g: &mut Stream) -> CliCase {
     let fault = if g.chance(20, 100) { 1 + g.below(5) } else { 0 };
     // "--opt=value" form: clap would take a separate negative number for a flag
     let mut args: Vec<String> = vec!["ber".into(), format!("--min-ebn0={}", min), format!("--max-ebn0={}", max), format!("--step-ebn0={}", step)];
-    args.extend(["--frame-errors".to_string(), g.pick(&[1u64, 2, 3, 5, 10]).to_string()]);
+    args.extend(["--frame-errors".to_string(), (if fault == 0 {
+        // a target of zero frame errors is legal: every point ends at once with a line of zero frames
+        // (seeded change C20-r10-1 sends no report for a point without frames, and no line is written);
+        // only fault-free, since a run that processes no frame need not notice sizes that do not fit
+        *g.pick(&[1u64, 2, 3, 5, 10, 1, 2, 3, 5, 0])
+    } else {
+        *g.pick(&[1u64, 2, 3, 5, 10])
+    })
+    .to_string()]);
     args.extend(["--max-iter".to_string(), g.pick(&[1usize, 3, 10]).to_string()]);
     args.extend(["--decoder".to_string(), g.pick(&names).clone()]);
     args.extend(["--output-file".to_string(), if fault == 5 { "/dev/full".to_string() } else { "out.txt".to_string() }]);
